@@ -19,7 +19,6 @@ package compose
 import (
 	"errors"
 	"fmt"
-	"reflect"
 
 	"github.com/cloudwego/eino/internal/generic"
 	"github.com/cloudwego/eino/schema"
@@ -217,9 +216,10 @@ func defaultStreamMapFilter[T any](key string, isr streamReader) (streamReader, 
 		}
 		vv, ok_ := v.(T)
 		if !ok_ {
+			// %T rather than the String() of the dynamic type: v may be an untyped nil, which has no type to ask
 			return t, fmt.Errorf(
-				"[defaultStreamMapFilter]fail, key[%s]'s value type[%s] isn't expected type[%s]",
-				key, reflect.TypeOf(v).String(),
+				"[defaultStreamMapFilter]fail, key[%s]'s value type[%T] isn't expected type[%s]",
+				key, v,
 				generic.TypeOf[T]().String())
 		}
 		return vv, nil
